@@ -1283,6 +1283,20 @@ theorem gen_set_removeAll (h : Nat → Nat) {pt : PTable} {t : Table} (hr : Rel 
   exact gen_set_removeAll_loop h o _ pt t _ hr hi
 
 
+/-- The translated `HashMap::operator!=` (`!(*this == other)`) is the negation of the model's `equal`, for EVERY two tables. -/
+theorem gen_map_notEqual (h : Nat → Nat) (t o : PTable) :
+    HashLink.HashMap.notEqual h t o = (PTable.equal Kind.map t o).map (fun r => (t, !r)) := by
+  unfold HashLink.HashMap.notEqual
+  rw [gen_map_equal]
+  cases PTable.equal Kind.map t o <;> rfl
+
+/-- The translated `HashSet::operator!=` (`!(*this == other)`) is the negation of the model's `equal`, for EVERY two tables. -/
+theorem gen_set_notEqual (h : Nat → Nat) (t o : PTable) :
+    HashLink.HashSet.notEqual h t o = (PTable.equal Kind.set t o).map (fun r => (t, !r)) := by
+  unfold HashLink.HashSet.notEqual
+  rw [gen_set_equal]
+  cases PTable.equal Kind.set t o <;> rfl
+
 /-! ### the members called with the object itself as `other` (translated with `other.x` = `x`) -/
 
 /-- The translated `swap(other)` with `other` = the object itself (both halves act on one object and one heap) is the model's
